@@ -70,6 +70,11 @@ def _fresh(interp, args, kwargs):
         return SV(BOOL, z3.And(z3.Not(s.is_none(v.t)), BIRTH(s.val(v.t)) >= 0))
     if isinstance(v, SV) and v.ty.name == "Ref":
         return SV(BOOL, BIRTH(v.t) >= 0)
+    from .vals import Cell
+    if isinstance(v, Cell) and v.fresh and v.home is None:
+        # a list/dict/set created on this path by the function under verification (or handed out as fresh by a callee contract): the same
+        # flag decides whether mutating it is a frame obligation. A container that is not known to be fresh stays undecided (never False).
+        return True
     raise Unsupported(f"fresh() of {v!r}")
 
 
